@@ -968,6 +968,10 @@ class StateAbsInt:
         return out
 
 
+def ai_fn(cls, name):
+    return next(f for f in cls.body if isinstance(f, ast.FunctionDef) and f.name == name)
+
+
 def transition_facts(src):
     """C09: for every method of IkeSa the states it may assign (directly or through the self.* methods it calls), and
     the collision rules of the CREATE_CHILD_SA request handlers as decision functions."""
@@ -1005,6 +1009,20 @@ def transition_facts(src):
                     closure[f] |= closure[g]
                     changed = True
     out = {'assigns': {f: sorted(closure[f]) for f in sorted(names)}}
+    # which methods can install kernel SAs (call Xfrm.create_child_sa, transitively through self.* calls)
+    inst = set()
+    for f in names:
+        for n in ast.walk(ai_fn(cls, f)):
+            if isinstance(n, ast.Call) and (dotted_name(n.func) or '').endswith('Xfrm.create_child_sa'):
+                inst.add(f)
+    changed = True
+    while changed:
+        changed = False
+        for f in names:
+            if f not in inst and calls[f] & inst:
+                inst.add(f)
+                changed = True
+    out['installers'] = inst
     ai = StateAbsInt(src)
     allst = sorted(vals.values())
     out['exits'] = {f: {st: sorted(ai.run_fn(f, {st})) for st in allst} for f in sorted(names)}
@@ -1185,6 +1203,15 @@ def translate(ctx=None):
         for st_, ex in trn['exits'][f].items():
             rows.append(f'  ({st_}, [' + '; '.join(map(str, ex)) + f'])  (* {f} *)')
     L.append('Definition entry_exits : list (Z * list Z) := [\n' + ';\n'.join(rows) + '\n].')
+    # the same, for the message handlers only, with the handler's index; and which handlers can install kernel SAs
+    hrows = []
+    for f in entry_points[:8]:
+        for st_, ex in trn['exits'][f].items():
+            hrows.append(f'  ({names.index(f)}%nat, {st_}, [' + '; '.join(map(str, ex)) + '])')
+    L.append('Definition handler_exits : list (nat * Z * list Z) := [\n' + ';\n'.join(hrows) + '\n].')
+    L.append('(* message handlers that (transitively) call Xfrm.create_child_sa *)')
+    L.append('Definition installing_handlers : list nat := [' + '; '.join(f'{names.index(f)}%nat' for f in entry_points[:8]
+                                                                        if f in trn['installers']) + '].')
     for f in ('process_acquire', 'process_expire', 'check_retransmission_timer', 'check_dead_peer_detection_timer',
               'check_rekey_ike_sa_timer', '_process_request', '_process_response'):
         L.append(f'Definition assigns_{f.strip("_")} : list Z := [' + '; '.join(map(str, trn['assigns'][f])) + '].')
